@@ -148,10 +148,11 @@ class GenericBackend(ParallelBackendBase):
     def configure(self, n_jobs=1, parallel=None, **kw):
         self.parallel = parallel; self.n = n_jobs; s = CUR.s
         if not hasattr(self, "q"):
-            self.q = []; self.out = collections.deque(); self.idle = []; self.cidle = None
+            self.q = []; self.out = collections.deque(); self.idle = []; self.cidle = None; self.cidles = []
             for i in range(n_jobs):
                 s.spawn("gw%d" % i, self.worker)
-            s.spawn("gcb", self.cbthread)
+            for k in range(int(os.environ.get("GMULTI", "1"))):
+                s.spawn("gcb%d" % k, self.cbthread)
         return n_jobs
 
     def effective_n_jobs(self, n_jobs): return n_jobs
@@ -171,14 +172,14 @@ class GenericBackend(ParallelBackendBase):
             try: j.res = ("ok", func())
             except BaseException as e: j.res = ("err", e)
             self.out.append((j, cb))
-            if self.cidle: s.wake(self.cidle)
+            for c in list(self.cidles): s.wake(c)
             s.yp("done")
 
     def cbthread(self):
         s = CUR.s; me = s.me()
         while True:
             if not self.out:
-                self.cidle = me; s.block(); self.cidle = None; continue
+                self.cidles.append(me); s.block(); self.cidles.remove(me); continue
             j, cb = self.out.popleft(); cb(j)
 
     def retrieve_result_callback(self, j):
@@ -195,7 +196,7 @@ def run_one(seed):
     global CUR
     s = Sched(seed); rng = s.rng
     CUR = st = St(); st.s = s; st.execlog = []; st.log = []; st.dead_worker = None
-    flavour = rng.choice(["L", "L", "G"])
+    flavour = rng.choice(["L", "L", "G"]) if not os.environ.get("ONLYG") else "G"
     n_jobs = rng.choice([2, 3]); cfg = dict(n_jobs=n_jobs, pre_dispatch=rng.choice([1, 2, "n_jobs", "2*n_jobs", "all"]),
                                             batch_size=rng.choice([1, 1, 2, "auto"]))
     calls = []; st.dur = {}; st.fail = set()
